@@ -310,6 +310,11 @@ func flowCalleeName(cc *ssa.CallCommon) string {
 }
 
 func (r *flowRun) call(c *ssa.Call, idx int) {
+	if prm := nilCtxDefault(c); prm != nil {
+		// `if ctx == nil { ctx = context.Background() }`: the default stands for the parameter
+		r.walk(prm)
+		return
+	}
 	cc := c.Common()
 	name := flowCalleeName(cc)
 	if name == "builtin:append" {
@@ -413,4 +418,42 @@ func typeParamOfTypeOf(v ssa.Value) (string, bool) {
 		return tp.Obj().Name(), true
 	}
 	return "", false
+}
+
+// nilCtxDefault: call is context.Background() / context.TODO() on the branch on which a
+// context parameter of the same function was found nil (a nil-context guard): the
+// parameter it replaces, else nil.
+func nilCtxDefault(call *ssa.Call) *ssa.Parameter {
+	n := calleeName(call.Common())
+	if n != "context.Background" && n != "context.TODO" {
+		return nil
+	}
+	cond, onTrue := guardingCond(call.Block())
+	if cond == nil {
+		return nil
+	}
+	x, nonNilOnTrue, ok := nilTest(cond)
+	if !ok || onTrue == nonNilOnTrue {
+		return nil
+	}
+	prm, ok := stripConv(x).(*ssa.Parameter)
+	if !ok {
+		// the parameter spilled to a cell (captured by closures): `*cell == nil` tested in the
+		// entry block, where the cell still holds the parameter
+		if ld, isLd := stripConv(x).(*ssa.UnOp); isLd && ld.Op == token.MUL && ld.Block() != nil && ld.Block().Index == 0 {
+			if al, isAl := ld.X.(*ssa.Alloc); isAl {
+				for _, ref := range *al.Referrers() {
+					if st, isSt := ref.(*ssa.Store); isSt && st.Addr == ssa.Value(al) && st.Block().Index == 0 {
+						if p2, isP := stripConv(st.Val).(*ssa.Parameter); isP {
+							prm, ok = p2, true
+						}
+					}
+				}
+			}
+		}
+	}
+	if !ok || prm.Parent() != call.Parent() || !isNamed(prm.Type(), "context", "Context") {
+		return nil
+	}
+	return prm
 }
